@@ -94,7 +94,9 @@ pub trait MemResizable: Mem{
     ///
     /// Implementation may panic, if fail to allocate/reallocate memory.
     fn expand_exact(&mut self, additional: usize){
-        self.resize(self.size() + additional);
+        self.resize(
+            self.size().checked_add(additional).expect("capacity overflow")
+        );
     }
 
     /// Resize memory chunk to specified size.
